@@ -133,23 +133,22 @@ Proof.
       { intros M0 C5. revert TCE. unfold timeout_check. cbv zeta.
         destruct (_ && _); [discriminate|].
         set (s1 := if last_abs_count s =? 5 then tfd_settime s 0 else s).
-        destruct (abs_cmp abs (last_abs s) =? 0).
-        - set (s2 := if last_abs_count s1 <? 5 then _ else s1).
-          destruct (Z.eqb_spec (last_abs_count s2) 5) as [E5|N5].
-          + destruct abs as [a|].
-            * intros E. assert (TE2 : TEnt s2).
-              { unfold s2. destruct (last_abs_count s1 <? 5); unfold s1; destruct (last_abs_count s =? 5);
-                  try (apply (TEnt_plain s); [reflexivity|reflexivity|apply (L ME)]);
-                  destruct (Z.eq_dec (tfd s) (-1)) as [X|X]; try (intros N; exfalso; apply N; exact X);
-                  try (apply (TEnt_plain (tfd_settime s 0)); [reflexivity|reflexivity|]); apply (tfd_settime_LK s 0 (proj1 (L ME)) X). }
-              assert (NX2 : 0 <= next_fd (kern s2)).
-              { unfold s2, s1. destruct (last_abs_count _ <? 5); destruct (last_abs_count s =? 5);
-                  cbn [kern set_last_abs tfd_settime emit set_trace set_kern]; unfold k_timerfd_settime; try destruct (k_open _ _); cbn; lia. }
-              destruct (set_poll_timeout_LK s2 a TE2 NX2 s0 false E) as (_ & _ & _ & _ & HF).
-              destruct (HF eq_refl) as [_ NM]. contradiction.
-            * intros E. inversion E; subst. admit.
-          + intros E. inversion E; subst. contradiction.
-        - destruct abs as [a|]; intros E; inversion E; subst; cbn in C5; discriminate C5. }
+        destruct abs as [a|]; [|cbn [abs_cmp Z.eqb]; intros E; inversion E; subst; cbn in C5; discriminate C5].
+        destruct (abs_cmp (Some a) (last_abs s) =? 0); [|intros E; inversion E; subst; cbn in C5; discriminate C5].
+        set (s2 := if last_abs_count s1 <? 5 then _ else s1).
+        destruct (Z.eqb_spec (last_abs_count s2) 5) as [E5|N5]; [|intros E; inversion E; subst; contradiction].
+        intros E. assert (TE2 : TEnt s2).
+        { assert (TE1 : TEnt s1).
+          { unfold s1. destruct (last_abs_count s =? 5); [|apply (L ME)].
+            destruct (Z.eq_dec (tfd s) (-1)) as [X|X]; [intros N; exfalso; apply N; exact X|].
+            apply (tfd_settime_LK s 0 (proj1 (L ME)) X). }
+          unfold s2. destruct (last_abs_count s1 <? 5); [|exact TE1].
+          apply (TEnt_plain s1); [reflexivity|reflexivity|exact TE1]. }
+        assert (NX2 : 0 <= next_fd (kern s2)).
+        { unfold s2, s1. destruct (last_abs_count _ <? 5); destruct (last_abs_count s =? 5);
+            cbn [kern set_last_abs tfd_settime emit set_trace set_kern]; unfold k_timerfd_settime; try destruct (k_open _ _); cbn; lia. }
+        destruct (set_poll_timeout_LK s2 a TE2 NX2 s0 false E) as (_ & _ & _ & _ & HF).
+        destruct (HF eq_refl) as [_ NM]. contradiction. }
       unfold m_poll. rewrite IE0.
       destruct (epoll_poll sc s0 abs) as [r rt] eqn:MP. cbn [fst].
       destruct r as [s1|s1]; cbn [bind]; [|discriminate].
@@ -158,10 +157,8 @@ Proof.
       apply DISP; [exact I1|]. intros M1. split; [exact TE1|]. intros _ C5. exfalso.
       apply (C0 ltac:(rewrite <- (t4_method _ _ M41); exact M1)). rewrite <- (t4_lac _ _ M41). exact C5.
   - (* the other methods never become epoll-timerfd *)
-    apply Z.eqb_neq in NE. rewrite NE.
     assert (NM : forall s1, InvW s1 -> method s1 <> M_ET -> dispatch_active sc (S (length (active s1))) s1 = R s' -> LKM s').
     { intros s1 I1 N1 E. apply (DISP s1 I1); [|exact E]. intros X. contradiction. }
-    apply Z.eqb_neq in NE.
     unfold m_poll. destruct (is_epoll s) eqn:IE.
     + destruct (epoll_poll sc s abs) as [r rt] eqn:MP. cbn [fst].
       destruct r as [s1|s1]; cbn [bind]; [|discriminate].
@@ -174,6 +171,12 @@ Proof.
       assert (E1 : fst (poll_poll sc s abs) = R s1) by (rewrite MP; reflexivity).
       pose proof (poll_poll_ok sc WF do_action_ok s abs I Q TM IE) as PP. rewrite E1 in PP. cbn [okr] in PP.
       apply NM; [apply PP|apply (poll_poll_noET s abs s1 I IE E1)].
-Admitted.
+Qed.
 
 End Poll.
+
+Check poll_and_run_LKM.
+Print Assumptions poll_and_run_LKM.
+Print Assumptions timer_ready.
+Print Assumptions epoll_poll_T.
+Print Assumptions timeout_check_LK.
